@@ -247,6 +247,15 @@ class Ref:
         self.env = scn["env"]
         self.w = core.World(scn["ftable"])
         self.generous = generous
+        self.tentative = set()     # indices (into self.w.calls) of bodies that ran inside an attempt that was given up
+
+    def give_up(self, start):
+        """the calls made since `start` belong to an attempt that failed and was passed over"""
+        self.tentative.update(range(start, len(self.w.calls)))
+
+    def required(self):
+        """bodies that ran on the path that produced the value (not inside a coalesce member / dispatch that failed)"""
+        return {int(t[1:t.index("(")]) for i, t in enumerate(self.w.calls) if i not in self.tentative}
 
     # -- helpers
     def strict(self, thunks):
@@ -335,11 +344,13 @@ class Ref:
             table = {}
             for alias, x in d.get("overloads", []):
                 table[core.py_value(alias)] = x
+            start = len(self.w.calls)
             try:
                 k = self.known(self.ev(d["dispatch"], o), "dispatch")
             except Fail:
                 if d.get("abstract"):
                     raise
+                self.give_up(start)
                 k = _NOKEY
             if k is not _NOKEY:
                 try:
@@ -430,11 +441,13 @@ class Ref:
             table = {}
             for v, x in e[2]:
                 table[core.py_value(v)] = x
+            start = len(self.w.calls)
             try:
                 key = self.known(self.ev(e[1], o), "dispatch")
             except Fail:
                 if e[3] is None:
                     raise
+                self.give_up(start)
                 return self.ev(e[3], o)
             try:
                 hit = key in table
@@ -455,9 +468,11 @@ class Ref:
             raise Fail("no case")
         if k == "coalesce":
             for m in e[1]:
+                start = len(self.w.calls)
                 try:
                     return self.ev(m, o)       # members after the first success do not run
                 except Fail:
+                    self.give_up(start)
                     continue
             raise Fail("no member")
         if k in ("iter", "list"):
@@ -536,6 +551,280 @@ def reference(scn, idx, options, generous):
     return ok, r.needed(), list(r.w.calls)
 
 
+def reference_required(scn, idx, options):
+    """(ok?, needed fids, fids of the bodies that ran on the path that PRODUCED the value) - the exact reading"""
+    r = Ref(scn, False)
+    try:
+        r.ev(scn["exprs"][idx], ref_json(options))
+        ok = True
+    except Fail:
+        ok = False
+    except RecursionError:
+        raise Unsupported("recursion")
+    return ok, r.needed(), (r.required() if ok else set())
+
+
+# ============================================================================ user callables of every KIND
+#
+# "A body runs only after all of its own arguments have been produced" - whatever kind of Python callable the body
+# is (def, lambda, an instance with __call__, a bound method, a classmethod / staticmethod, a class, a
+# functools.partial object over any of these) and whichever kind of parameter declares the argument expression
+# (positional-or-keyword, keyword-only after a bare *, supplied through defaults= / where() / lift(**kwargs) for a
+# parameter without a default - also into **kwargs -, keyword-only because a functools.partial bound an earlier
+# parameter by keyword, bound by the functools.partial itself; for a pipeline step also behind a positional-only
+# input `x, /`): dataset definitions, overload implementations (the overload decorator), lifted functions, pipeline
+# steps (hence callbacks and effects written as steps), and predicates / applied functions / callbacks / effects /
+# steps handed over as bare callables.  Outside, because labrea itself does not support them (TypeError /
+# ValueError on the unchanged library): positional-only PARAMETERS carrying an expression, *args in a lifted
+# signature, *args / **kwargs in a @pipeline_step.  The Coq model has no notion of the kind of a Python callable
+# (the scenario is the same term): this family is judged by the oracle only.
+CALLABLE_KINDS = ("def", "lambda", "instance", "bound", "classmethod", "staticmethod", "class")
+UNARY_KINDS = CALLABLE_KINDS + ("partial", "partial_bound_argument", "partial_of_instance")
+FA_PARAM_KINDS = ("pk", "kwonly", "split", "supplied", "varkw", "partial_kw", "partial_pos", "partial_binds")
+STEP_PARAM_KINDS = ("pk", "kwonly", "split", "posx", "supplied", "partial_kw", "partial_pos", "partial_binds")
+KIND_SOURCES = {
+    "def": "def f({p}):\n    return {c}\n",
+    "lambda": "f = lambda {p}: {c}\n",
+    "instance": "class C:\n    def __call__(self, {p}):\n        return {c}\nf = C()\n",
+    "bound": "class C:\n    def m(self, {p}):\n        return {c}\nf = C().m\n",
+    "classmethod": "class C:\n    @classmethod\n    def m(cls, {p}):\n        return {c}\nf = C.m\n",
+    "staticmethod": "class C:\n    @staticmethod\n    def m({p}):\n        return {c}\nf = C.m\n",
+    "class": "class f:\n    def __new__(cls, {p}):\n        return {c}\n",
+}
+KIND_CONST = 7
+N_KIND_ROTATIONS = 64
+
+
+def _lost():
+    raise AssertionError("a constant / bound parameter of the user's callable did not arrive")
+
+
+def kind_callable(rng, impl, evs, step):
+    """(callable, supplied, description): a Python callable of a random kind that computes impl([x,] a0, ..., an-1)
+    and declares the argument expressions `evs` as its parameters' defaults in a random way; `supplied`: the
+    defaults that are NOT in the signature and must be given through defaults= / where() / lift(**kwargs)"""
+    import functools
+    n = len(evs)
+    names = [f"a{i}" for i in range(n)]
+    ck = rng.choice(CALLABLE_KINDS)
+    pk = rng.choice(STEP_PARAM_KINDS if step else FA_PARAM_KINDS)
+    if n == 0 and pk in ("varkw", "partial_binds", "supplied"):
+        pk = "pk"
+    h = rng.randint(0, n)
+    ns = {"impl": impl, "CONST": KIND_CONST, "lost": _lost, "functools": functools}
+    for i, ev in enumerate(evs):
+        ns[f"D{i}"] = ev
+    dflt = [f"a{i}=D{i}" for i in range(n)]
+    lead = ["x"] if step else []
+    args = ", ".join(lead + names)
+    call, wrap, supplied = f"impl({args})", None, None
+    guarded = f"(impl({args}) if c == CONST else lost())"
+    if pk == "pk":
+        params = lead + dflt
+    elif pk == "kwonly":
+        params = lead + (["*"] if n else []) + dflt
+    elif pk == "split":
+        params = lead + dflt[:h] + (["*"] + dflt[h:] if h < n else [])
+    elif pk == "posx":
+        params = ["x", "/"] + dflt[:h] + (["*"] + dflt[h:] if h < n else [])
+    elif pk == "supplied":
+        params = lead + names[:h] + (["*"] + names[h:] if h < n else [])
+        supplied = dict(zip(names, evs))
+    elif pk == "varkw":
+        h = min(h, n - 1)
+        params = dflt[:h] + ["**kw"]
+        call = "impl(" + ", ".join(names[:h] + [f"kw['{a}']" for a in names[h:]]) + ")"
+        supplied = dict(zip(names[h:], evs[h:]))
+    elif pk == "partial_kw":
+        params = lead + dflt[:h] + ["c=0"] + dflt[h:]
+        call, wrap = guarded, "functools.partial(f, c=CONST)"
+    elif pk == "partial_pos":
+        params = ["c"] + lead + dflt
+        call, wrap = guarded, "functools.partial(f, CONST)"
+    else:   # partial_binds: no defaults in the definition, the functools.partial binds the expressions by keyword
+        params = lead + names
+        wrap = "functools.partial(f, " + ", ".join(f"a{i}=D{i}" for i in range(n)) + ")"
+    exec(KIND_SOURCES[ck].format(p=", ".join(params), c=call), ns)
+    f = ns["f"]
+    if wrap is not None:
+        f = eval(wrap, dict(ns, f=f))
+    return f, supplied, f"{ck}/{pk}"
+
+
+def unary_callable(rng, fn):
+    """the user function fn as a Python callable of a random kind, to be handed to labrea RAW (not wrapped in Value)"""
+    import functools
+    k = rng.choice(UNARY_KINDS)
+    if k == "partial":
+        return functools.partial(fn), k
+    if k == "partial_bound_argument":
+        return functools.partial(lambda m, *a: fn(*a) if m == KIND_CONST else _lost(), KIND_CONST), k
+    ns = {"impl": fn}
+    exec(KIND_SOURCES["instance" if k == "partial_of_instance" else k].format(p="*a", c="impl(*a)"), ns)
+    return (functools.partial(ns["f"]) if k == "partial_of_instance" else ns["f"]), k
+
+
+class KindBuilder(core.Builder):
+    def __init__(self, world, env, rotation):
+        import random
+        super().__init__(world, env)
+        self.rng = random.Random(7919 * rotation + 13)
+        self.used = []
+        self.unproduced = []       # bodies that were handed an unevaluated expression as an argument
+
+    def body(self, fid):
+        """the recording body of atom fid, noting when it is handed an expression instead of its value"""
+        from labrea.types import Evaluatable
+        impl = self.w.fn(fid)
+
+        def guarded(*args):
+            if any(isinstance(a, Evaluatable) for a in args):
+                self.unproduced.append(fid)
+            return impl(*args)
+        return guarded
+
+    def fn_or_build(self, e):
+        """an expression in a position where labrea accepts a bare callable (MaybeEvaluatable)"""
+        if e[0] == "fnvalue":
+            f, k = unary_callable(self.rng, self.body(e[1]))
+            self.used.append("raw " + k)
+            return f
+        return self.build(e)
+
+    def lifted(self, fid, arg_exprs, step):
+        f, supplied, k = kind_callable(self.rng, self.body(fid), [self.build(x) for x in arg_exprs], step)
+        self.used.append(k)
+        return f, supplied
+
+    def dataset(self, dsid):
+        if dsid in self.ds:
+            return self.ds[dsid]
+        from labrea import dataset, abstractdataset
+        from labrea.cache import NoCache
+        d = self.env[dsid]
+        if d.get("derived") is not None:
+            return super().dataset(dsid)
+        kw = {}
+        if d.get("dispatch") is not None:
+            kw["dispatch"] = self.build(d["dispatch"])
+        if d.get("options"):
+            kw["options"] = core.py_json(d["options"])
+        if d.get("default_options"):
+            kw["default_options"] = core.py_json(d["default_options"])
+        if d.get("callback") is not None:
+            kw["callback"] = self.fn_or_build(d["callback"])
+        if d.get("effects"):
+            kw["effects"] = [self.fn_or_build(e) for e in d["effects"]]
+        kw["cache"] = self.w.cache(dsid) if d.get("cache", "mem") == "mem" else NoCache()
+        if d.get("abstract"):
+            def _abstract():
+                pass
+            _abstract.__name__ = _abstract.__qualname__ = f"ds{dsid}"
+            obj = abstractdataset(_abstract, **kw)
+        else:
+            f, supplied = self.lifted(d["fid"], d.get("kwargs", []), False)
+            r = self.rng.random()
+            if supplied and r < 0.5:
+                obj = dataset(**kw).where(**supplied)(f)
+            elif supplied:
+                obj = dataset(f, defaults=supplied, **kw)
+            elif r < 0.5:
+                obj = dataset(**kw)(f)                  # the decorator-with-arguments form
+            else:
+                obj = dataset(f, **kw)
+        self.ds[dsid] = obj
+        for alias, impl in d.get("overloads", []):
+            if impl[0] == "call" and d.get("dispatch") is not None and self.rng.random() < 0.7:
+                # an implementation written as a function: the overload decorator
+                f, supplied = self.lifted(impl[1], impl[2], False)
+                if supplied:
+                    obj.overload(core.py_value(alias))(dataset.where(**supplied)(f))
+                else:
+                    obj.overload(core.py_value(alias))(f)
+            else:
+                obj.register(core.py_value(alias), self.build(impl))
+        if d.get("effects_disabled"):
+            obj.disable_effects()
+        return obj
+
+    def build(self, e):
+        L, k = self.L, e[0]
+        if k == "fnvalue":
+            from labrea.types import Value
+            f, kk = unary_callable(self.rng, self.body(e[1]))
+            self.used.append("value " + kk)
+            return Value(f)
+        if k == "case":
+            c = L.case(self.build(e[1]))
+            for cond, r in e[2]:
+                c = c.when(self.fn_or_build(cond), self.build(r))
+            if e[3] is not None:
+                c = c.otherwise(self.build(e[3]))
+            return c
+        if k == "apply":
+            src, fn = self.build(e[1]), self.fn_or_build(e[2])
+            return src.apply(fn) if self.rng.random() < 0.5 else src >> fn
+        if k == "pipe":
+            from labrea.pipeline import Pipeline
+            p = Pipeline()
+            for st in e[1]:
+                p = p + self.fn_or_build(st)
+            return p
+        if k == "comp":
+            from labrea.computation import CallbackEffect, ChainedEffect, Computation
+            return Computation(self.build(e[1]), ChainedEffect(*[CallbackEffect(self.fn_or_build(x)) for x in e[2]]))
+        if k == "call":
+            from labrea.application import FunctionApplication
+            if self.rng.random() < 0.15:       # the explicit form, the argument expressions given positionally
+                f, kk = unary_callable(self.rng, self.body(e[1]))
+                self.used.append("FunctionApplication(f, *args) " + kk)
+                return FunctionApplication(f, *[self.build(x) for x in e[2]])
+            f, supplied = self.lifted(e[1], e[2], False)
+            if supplied and self.rng.random() < 0.5:
+                return FunctionApplication.lift(**supplied)(f)      # the decorator-with-arguments form
+            return FunctionApplication.lift(f, **(supplied or {}))
+        if k == "pstep":
+            from labrea.application import PartialApplication
+            from labrea.pipeline import PipelineStep
+            f, supplied = self.lifted(e[1], e[2], True)
+            if supplied:
+                return PipelineStep(PartialApplication.lift(f, **supplied), f"step{e[1]}")
+            return L.pipeline_step(f)
+        return super().build(e)
+
+
+def kind_applies(scn, idx):
+    for t in cp.sub_exprs(scn["exprs"][idx]):
+        if isinstance(t, tuple) and t and t[0] in ("fnvalue", "call", "pstep", "dataset"):
+            return True
+    return False
+
+
+def kind_rotation(scn, idx):
+    import zlib
+    return zlib.crc32(repr(scn["exprs"][idx]).encode()) % N_KIND_ROTATIONS
+
+
+def kind_eval(scn, idx, options, rotation):
+    """a freshly built copy of the graph with every user-supplied callable of another kind, evaluated once, caching
+    disabled: (a value was produced?, executed function atoms in order, bodies handed an unevaluated expression, kinds used)"""
+    import labrea.cache
+    w = core.World(scn["ftable"])
+    b = KindBuilder(w, scn["env"], rotation)
+    obj = b.build(scn["exprs"][idx])
+    w.calls.clear()
+    ok = True
+    with labrea.cache.disabled():
+        try:
+            core.force(obj.evaluate(core.py_json(options)))
+        except RecursionError:
+            ok = False
+        except Exception:  # noqa
+            ok = False
+    seq = [int(t[1:t.index("(")]) for t in w.calls if t.startswith("c") and "(" in t and t[1:t.index("(")].isdigit()]
+    return ok, seq, list(b.unproduced), list(b.used)
+
+
 # ============================================================================ oracle
 
 def fids_of(line):
@@ -599,12 +888,28 @@ def evaluated_once(scn, idx):
     return all(v <= 1 for v in refs.values())
 
 
-def order_checks(scn, idx, seq):
+def written_once(scn, idx):
+    """function atoms written at exactly one place of the expression and the datasets of the scenario"""
+    n = {}
+    for t in cp.sub_exprs([scn["exprs"][idx], scn["env"]]):
+        if isinstance(t, tuple) and len(t) > 1 and t[0] in ("fnvalue", "call", "pstep") and isinstance(t[1], int):
+            n[t[1]] = n.get(t[1], 0) + 1
+    for d in scn["env"].values():
+        if d.get("derived") is None and not d.get("abstract") and "fid" in d:
+            n[d["fid"]] = n.get(d["fid"], 0) + 1
+    return {f for f, k in n.items() if k == 1}
+
+
+def order_checks(scn, idx, seq, required=None):
     """argument-before-body / source-before-step constraints of expression idx, on an executed
-    sequence `seq` of function atoms; only constraints whose atoms ran at most once are decidable"""
+    sequence `seq` of function atoms; only constraints whose atoms ran at most once are decidable.
+    `required` (given when the evaluation and the reference both produced a value): the bodies on the path that
+    produced the value - a body that ran although a required body of one of its own argument expressions never ran
+    was not handed all of its arguments"""
     if not evaluated_once(scn, idx):
         return [], 0
     syn = Syntax(scn)
+    once = written_once(scn, idx) if required is not None else set()
     count = {}
     for f in seq:
         count[f] = count.get(f, 0) + 1
@@ -612,8 +917,16 @@ def order_checks(scn, idx, seq):
     bad = []
     checked = 0
 
-    def before(first, then, what):
+    def before(first, then, what, arguments=False):
         nonlocal checked
+        if arguments and required is not None:
+            ran = {f for f in then if f in pos and count[f] == 1 and f in once}
+            lacking = {f for f in first if f in required and f in once and f not in pos and f not in then}
+            if ran:
+                checked += 1
+                if lacking:
+                    bad.append(dict(what=what + " (a body needed to produce one of its arguments never ran: the argument was not produced)",
+                                    first=sorted(lacking), then=sorted(ran), executed=seq))
         first = {f for f in first if f in pos}
         then = {f for f in then if f in pos}
         if not first or not then or (first & then):
@@ -635,7 +948,12 @@ def order_checks(scn, idx, seq):
             args = set()
             for a in e[2]:
                 args |= syn.fids(a)
-            before(args, {e[1]}, "a body ran before all of its argument expressions")
+            before(args, {e[1]}, "a body ran before all of its argument expressions", arguments=True)
+        if k == "pstep":
+            args = set()
+            for a in e[2]:
+                args |= syn.fids(a)
+            before(args, {e[1]}, "a step ran before all of its parameter expressions", arguments=True)
         if k == "apply":
             src, fn = syn.fids(e[1]), syn.fids(e[2])
             before(src, fn, "the function expression / step of an apply ran before its source")
@@ -666,7 +984,7 @@ def order_checks(scn, idx, seq):
             args |= syn.fids(a)
             walk(a)
         body = set() if d.get("abstract") else {d["fid"]}
-        before(args, body, "a dataset body ran before all of its argument expressions")
+        before(args, body, "a dataset body ran before all of its argument expressions", arguments=True)
         impls = set()
         for _, x in d.get("overloads", []):
             impls |= syn.fids(x)
@@ -674,6 +992,10 @@ def order_checks(scn, idx, seq):
         if d.get("dispatch") is not None:
             walk(d["dispatch"])
             before(syn.fids(d["dispatch"]), body | impls, "a dataset implementation ran before its dispatch")
+        if d.get("callback") is not None:
+            walk(d["callback"])
+        for x in d.get("effects", []) or []:
+            walk(x)
         cb = syn.fids(d["callback"]) if d.get("callback") is not None else set()
         before(body | impls, cb, "a dataset callback ran before the body it is applied to")
         eff = set()
@@ -701,7 +1023,7 @@ def oracle_op(scn, op, memo):
         out["skipped"] = "template"
         return out
     try:
-        ok_p, need_p, _ = reference(scn, idx, o, generous=False)
+        ok_p, need_p, required_p = reference_required(scn, idx, o)
         ok_g, need_g, _ = reference(scn, idx, o, generous=True)
     except Unsupported as e:
         out["skipped"] = str(e)
@@ -730,11 +1052,36 @@ def oracle_op(scn, op, memo):
                 desc=f"{meth} ({'cache disabled' if disabled else 'cache on'}) ran bodies that are not on the selected path",
                 unneeded=sorted(extra), executed=seq, needed=sorted(need), method=meth, disabled=disabled))
         if exact:
-            bad, n = order_checks(scn, idx, seq)
+            impl_ok = cp.split(line)[0].startswith("ok:")
+            bad, n = order_checks(scn, idx, seq, required_p if (ok_p and impl_ok) else None)
             out["order_checked"] += n
             for b in bad[:1]:
                 out["violations"].append(dict(desc=b["what"], first=b["first"], then=b["then"], executed=seq,
                                               method=meth, disabled=disabled))
+            # the same graph with every user-supplied callable of another KIND (see KindBuilder)
+            if kind_applies(scn, idx):
+                kbase = kind_rotation(scn, idx)
+                k_ok, kseq, unproduced, used = kind_eval(scn, idx, o, kbase)
+                out["checked"] += 1
+                out["kind_runs"] = out.get("kind_runs", 0) + 1
+                what = dict(method="evaluate", disabled=True, callable_kinds=used, kind_rotation=kbase)
+                extra = set(kseq) - need
+                if unproduced:
+                    out["violations"].append(dict(
+                        what, desc="a body ran before its argument was produced: it was handed the unevaluated expression itself "
+                                   "[the graph built with user callables of other kinds]", bodies=sorted(set(unproduced)), executed=kseq))
+                elif extra:
+                    out["violations"].append(dict(
+                        what, desc="evaluate (cache disabled) ran bodies that are not on the selected path [the graph built with user "
+                                   "callables of other kinds]", unneeded=sorted(extra), executed=kseq, needed=sorted(need)))
+                else:
+                    bad, n = order_checks(scn, idx, kseq, required_p if (ok_p and k_ok) else None)
+                    out["order_checked"] += n
+                    for b in bad[:1]:
+                        out["violations"].append(dict(what, desc=b["what"] + " [the graph built with user callables of other kinds]",
+                                                      first=b["first"], then=b["then"], executed=kseq))
+                    if not bad and k_ok != impl_ok:
+                        out["kind_outcome_differs"] = True
     return out
 
 
@@ -777,6 +1124,18 @@ def construction_scenario(scn):
     if w.calls or rec.seen:
         return dict(desc="building the graph of a scenario ran a body / issued an evaluation request",
                     ran=list(w.calls)[:6], requests=rec.seen[:6])
+    # the same definitions with user callables of other kinds (classes, instances, functools.partial objects, ...)
+    with Recorder() as rec:
+        w = core.World(scn["ftable"])
+        b = KindBuilder(w, scn["env"], len(scn["exprs"]) + 3 * len(scn["env"]))
+        for e in scn["exprs"]:
+            b.build(e)
+        for dsid in scn["env"]:
+            b.dataset(dsid)
+    if w.calls or rec.seen:
+        return dict(desc="building the graph of a scenario (user callables of other kinds: classes, instances, functools.partial "
+                         "objects, ...) ran a body / issued an evaluation request",
+                    ran=list(w.calls)[:6], requests=rec.seen[:6], callable_kinds=list(b.used)[:12])
     return None
 
 
@@ -1357,7 +1716,8 @@ def run(ctx):
     impls, models, mism, stats = correspond(ctx, scns, "Cases_C06")
     violations, distinct = [], set()
     tot = dict(oracle_ops=0, oracle_runs=0, order_constraints=0, skipped_template=0, skipped_explain=0, skipped_other=0,
-               outcome_disagreements_with_reference=0, construction_scenarios=0)
+               outcome_disagreements_with_reference=0, construction_scenarios=0, callable_kind_runs=0,
+               callable_kind_outcome_differs_from_plain_functions=0)
     for scn in scns:
         memo = {}
         for j, op in enumerate(scn["ops"]):
@@ -1369,6 +1729,8 @@ def run(ctx):
             tot["oracle_runs"] += r["checked"]
             tot["order_constraints"] += r["order_checked"]
             tot["outcome_disagreements_with_reference"] += int(r["disagree"])
+            tot["callable_kind_runs"] += r.get("kind_runs", 0)
+            tot["callable_kind_outcome_differs_from_plain_functions"] += int(bool(r.get("kind_outcome_differs")))
             if r["nontrivial"]:
                 distinct.add(lib.stable_hash([cp.dump_scn(dict(scn, ops=[])), op[1], repr(op[4])]))
             for v in r["violations"][:1]:
@@ -1402,7 +1764,14 @@ def run(ctx):
         "rule": "random expression graphs (LazyGen: the core profile plus bodies as option defaults, branches, members, results; every body has "
                 "its own function atom) x 10 ops over adversarially perturbed dictionaries; correspondence = ordered call logs of model and "
                 "implementation on the long-lived graph; oracle = per op on a freshly built graph (cache off and on): executed bodies within the "
-                "bodies the reference semantics (independent Python, from the property text) needs, plus order constraints; non-trivial = some "
+                "bodies the reference semantics (independent Python, from the property text) needs, plus order constraints (incl.: a body / "
+                "dataset body / step that ran although a body on the value-producing path of one of its own argument expressions never ran); "
+                "per evaluate op one more freshly built graph in which every user-supplied callable is of another KIND (def / lambda / "
+                "instance with __call__ / bound method / classmethod / staticmethod / class / functools.partial) and declares its argument "
+                "expressions through another kind of parameter (keyword-only, supplied through defaults= / where() / lift(**kwargs), "
+                "**kwargs, bound or made keyword-only by a functools.partial, behind a positional-only input), overloads through the "
+                "overload decorator, predicates / applied functions / callbacks / effects / steps handed over as bare callables: same "
+                "containment and order clauses, and no body may be handed an unevaluated expression as an argument; non-trivial = some "
                 "body written in the expression is NOT on the selected path and some body is; distinct by hash of (graph, expression, dictionary)",
         "samples": [dict(exprs=repr(s["exprs"])[:300], op=repr(s["ops"][0])[:160], observed=il[0][:200])
                     for s, il in list(zip(scns, impls))[len(fixed):len(fixed) + 3]],
